@@ -61,6 +61,8 @@ type vProfile struct {
 	decorSoft   bool  // decorators may take a soft value-group as an extra parameter
 	twoSided    bool  // C16: a rejection in the container as drawn is compared with the rearranged one instead of being assumed away
 	visErr      bool  // call Visualize(VisualizeError(err)) after every failed Invoke
+	as3         bool  // As lists may have three interfaces
+	regDShape   []int // if set and >= 0: the shape (see genFunc) of the i-th registration when it is a decorator is fixed
 }
 
 type vHist struct {
@@ -176,7 +178,14 @@ func (h *vHist) genFunc(kind int, tag string) *vFunc {
 			if h.p.decorSoft {
 				nshapes = 6
 			}
-			switch verifNdInt(tag+".dshape", nshapes) {
+			shape := -1
+			if n := h.nRegsDrawn - 1; n >= 0 && n < len(h.p.regDShape) {
+				shape = h.p.regDShape[n]
+			}
+			if shape < 0 {
+				shape = verifNdInt(tag+".dshape", nshapes)
+			}
+			switch shape {
 			case 5: // an extra soft value-group parameter
 				f.params = append(f.params, &vParam{t: verifNdType(tag + ".dsoft"), form: 1, group: "g", soft: true})
 				if k.form == 0 {
@@ -231,7 +240,11 @@ func (h *vHist) genFunc(kind int, tag string) *vFunc {
 			}
 		}
 		if h.p.as && (!anyObj || h.p.asObj) && verifNdBool(tag+".as") {
-			f.optAs = 1 + verifNdInt(tag+".asn", 2)
+			nas := 2
+			if h.p.as3 {
+				nas = 3
+			}
+			f.optAs = 1 + verifNdInt(tag+".asn", nas)
 			for _, r := range f.results {
 				r.t = vAType
 				r.as = f.optAs
